@@ -149,6 +149,9 @@ def native_replay(rep):
                 if snap() != before:
                     return {"confirmed": True, "found_by": "read-only calls on small genomes",
                             "observed": f"gene a required={required} at {level.name}: validate/get_gene/get_value changed the genome: {before} -> {snap()}"}
+    n0, bad0 = c20_bounded.search_readonly()
+    if bad0 is not None:
+        return {"confirmed": True, "observed": bad0, "found_by": f"read-only entry points with deep snapshots ({n0} cases)"}
     n, bad = c20_bounded.search(3)
     if bad is None:
         return {"confirmed": False, "observed": f"no deviation from the reference value map among {n} operation sequences (depth 3)"}
